@@ -226,13 +226,14 @@ fn c15_lookup() -> R {
     for i in 0..nas {
         let p = choice(2) as u32;       // predicate leaf 50 or 51
         let o = 60 + i as u32;          // distinct objects
-        let form = choice(6);
+        let form = choice(7);
         let base = a(l(50 + p), l(o));
         let (sp, visible_pred) = match form {
             0 => (base, true),
             1 => (a(el(l(50 + p)), l(o)), true),                       // elided predicate: still matches by digest
             2 => (a(l(50 + p), el(l(o))), true),                       // elided object
             3 => (n(base, vec![a(l(70 + i as u32), l(80 + i as u32))]), true), // decorated assertion
+            6 => (n(n(base, vec![a(l(70 + i as u32), l(80 + i as u32))]), vec![a(l(90 + i as u32), l(95 + i as u32))]), false), // assertion under two node levels (decoder / uncompress_subject shape): subject() is not an assertion
             4 => (el(base), false),                                    // whole assertion elided: cannot match
             _ => (co(base), false),
         };
@@ -393,7 +394,7 @@ pub fn prop_c15() -> Prop {
                 bounds: "every shape of <=8 (quick) / <=10 (thorough) elements with known values + 16 larger shapes + obscured shapes <=5 x both walk modes (visit sequence, level, edge kind, parent threading against a harness traversal of case()) x digests(limit) for every limit 0..depth+2, deep/shallow digests, elements_count, subject/assertions, case predicates x every digest order",
                 api: &["walk", "elements_count", "digests", "deep_digests", "shallow_digests", "subject", "assertions", "has_assertions", "is_*"] },
             Scenario { name: "lookup", f: c15_lookup, thorough_only: false,
-                bounds: "subject with 1..3 assertions, each with predicate from {A, B}, in 6 forms (plain, elided predicate, elided object, decorated, whole assertion elided, whole assertion compressed) x query predicate {A, B, absent} given clear or elided x every digest order: assertions_with_predicate, assertion_with_predicate, optional_*, object(s)_for_predicate, extract_* with none / one / several matches",
+                bounds: "subject with 1..3 assertions, each with predicate from {A, B}, in 7 forms (plain, elided predicate, elided object, decorated, decorated twice, whole assertion elided, whole assertion compressed) x query predicate {A, B, absent} given clear or elided x every digest order: assertions_with_predicate, assertion_with_predicate, optional_*, object(s)_for_predicate, extract_* with none / one / several matches",
                 api: &["assertions_with_predicate", "assertion_with_predicate", "optional_assertion_with_predicate", "object_for_predicate", "optional_object_for_predicate", "objects_for_predicate", "extract_object_for_predicate", "extract_objects_for_predicate", "extract_optional_object_for_predicate", "extract_object_for_predicate_with_default"] },
             Scenario { name: "extract", f: c15_extract, thorough_only: false,
                 bounds: "15 stored values x 12 extraction types x 3 holders (bare, subject of a node, object of an assertion): Ok(x) implies x encodes to the stored dCBOR; the stored type extracts; wrapped / known value / elided subjects. Catalogue, not solver-quantified",
